@@ -707,7 +707,13 @@ mod unstable {
                                     if let Formula::AtomicFormula(AtomicFormula::Comparison(c2)) =
                                         ct2
                                     {
-                                        if equality_comparison(c2) && i != j {
+                                        // A structural duplicate of c1 must not be paired with it:
+                                        // every copy of the dropped term is removed below, which
+                                        // would lose the constraint unless it is trivial (t = t)
+                                        if equality_comparison(c2)
+                                            && i != j
+                                            && (c1 != c2 || c1.term == c1.guards[0].term)
+                                        {
                                             if let Some((keep_var, drop_var, drop_term)) =
                                                 transitive_equality(
                                                     c1.clone(),
